@@ -760,10 +760,78 @@ func (e *Eng) actRevoke() {
 			e.label("revoke-dead")
 			e.invariant("C08/revoking-dead-token-changed-state")
 		default:
+			// whatever state the token was in (the model does not know): the endpoint accepted its owner's request, so
+			// from now on it is inactive
 			e.unspecFamily(g, "revoked-unspecified-token")
+			if c.Pruned == 0 {
+				c.Revoked = true
+				e.setInactive(c, "C08/revoked-token-still-active")
+				e.label("revoke-token-of-unspecified-state")
+			}
 			e.invariant("")
 		}
 	}
+}
+
+// ---------------------------------------------------------------- two refreshes of one token in flight together
+
+// actOverlappingRefresh presents one live refresh token in two requests whose storage calls interleave: the first
+// request runs for k storage calls, then the second for k, then the first to its end, then the second. Which of them
+// wins is the store's business (C19 owns that); the model learns the tokens that were handed out and knows nothing
+// about the family's state afterwards. What the other statements say about those tokens later still holds.
+func (e *Eng) actOverlappingRefresh() {
+	t := e.t
+	if e.w.Tx != nil {
+		t.Skip("reference store only")
+	}
+	r := e.pickCred("refresh", "refresh")
+	if r == nil {
+		t.Skip("no refresh token")
+	}
+	if st, _ := e.effective(r); st != Active || r.Consumed {
+		t.Skip("refresh token not live")
+	}
+	g := r.G
+	k := rapid.IntRange(1, 6).Draw(t, "firstRequestRunsForCalls")
+	var res [2]*h.TokenResult
+	mk := func(i int) func() {
+		return func() {
+			res[i] = e.w.Token(e.form(g.Client, url.Values{"grant_type": {"refresh_token"}, "refresh_token": {r.Val}}), e.auth(g.Client), h.TokenOpts{})
+		}
+	}
+	n := 0
+	sch, stuck := h.RunSchedule(e.w, []func(){mk(0), mk(1)}, func(enabled []int) int {
+		n++
+		want := 0
+		if n > k && n <= 2*k {
+			want = 1
+		}
+		for i, op := range enabled {
+			if op == want {
+				return i
+			}
+		}
+		return 0
+	})
+	if stuck {
+		t.Fatalf("VERIF-INFRA: overlapping refreshes did not finish (trace %v)", sch.Trace)
+	}
+	if len(sch.Panics) > 0 {
+		e.viol("C19/panic", "overlapping refreshes panicked: %v (trace %v)", sch.Panics, sch.Trace)
+	}
+	e.step(fmt.Sprintf("overlappingRefresh:%d", k))
+	nOK := 0
+	for i := range res {
+		if res[i] != nil && res[i].OK() {
+			nOK++
+			r.Consumed = true
+			e.registerTokens(g, res[i], r.Gen+1, "refresh")
+		}
+	}
+	e.logf("overlappingRefresh %v k=%d trace=%v -> %v / %v", r, k, sch.Trace, res[0].Err, res[1].Err)
+	e.unspecFamily(g, "overlapping-refreshes")
+	e.label(fmt.Sprintf("overlapping-refreshes-both-ok=%v", nOK == 2))
+	e.invariant("")
 }
 
 // ---------------------------------------------------------------- other grant origins
